@@ -69,8 +69,11 @@ pub fn handle(op: &str, args: &[&str]) -> Result<String, String> {
             )
         }
         ("format_data", []) => {
-            let data =
-                format::parse_line_number_format(&cfg.blame_format, &BLAME_PLACEHOLDER_REGEX, false);
+            let data = format::parse_line_number_format(
+                &cfg.blame_format,
+                &BLAME_PLACEHOLDER_REGEX,
+                false,
+            );
             let items: Vec<String> = data
                 .iter()
                 .map(|d| {
